@@ -586,7 +586,7 @@ func ruleHashKill(c *Ctx, r *Rep) {
 		delete(got, f)
 	}
 	// From: killed iff !(IsStatic && IsSet): the store sits behind the false edge of IsStatic or of IsSet (two paths into one block, so no single dominating guard)
-	a := &atomizer{c, c.newProv(), h}
+	a := &atomizer{c: c, pv: c.newProv(), fn: h}
 	for _, k := range kills {
 		if k.field != "Validity.From" && k.field != "Validity.Until" {
 			continue
